@@ -621,14 +621,17 @@ RELRES_MAX = 1e-3   # largest residual / (vp^2 or vm^2) of a solve that reports 
 K_SHOCK = 50.0      # |T_shock/Tn - 1| <= K_SHOCK * shock_tolerance (calibrated, see evidence)
 
 
-def root_on_jump(h, vw, vp, miss):
+def root_on_jump(h, vw, vp, miss, n_failed=0):
     """mechanism of C03 findMatching-root-on-jump, measured on the live object: the shooting
     function F(x) = solveHydroShock(vw, x, T+(x)) - Tn rebuilt from the public methods equals
     the observed miss at x = v+ (to 5%) and, for some d in {1e-7..1e-4}, changes sign between two of
     v+(1-d), v+, v+(1+d) with magnitudes >= half the miss: brentq converged onto a JUMP of the
     code's own (discontinuous) shooting function, for the REQUESTED vw"""
+    conv = {}
+
     def F(x):
         _, _, Tp_, _ = h.matchDeflagOrHyb(vw, x)
+        conv[x] = bool(h.success)
         return float(h.solveHydroShock(vw, x, Tp_)) - h.Tnucl
     try:
         f0 = F(vp)
@@ -641,6 +644,17 @@ def root_on_jump(h, vw, vp, miss):
                 # hop back and forth between two branches of the inner 2x2 solve)
                 if u * v < 0 and min(abs(u), abs(v)) >= 0.5 * abs(miss):
                     return True
+        # same mechanism, erratic variant (C06 vp-root-on-unconverged-jump): the shooting
+        # function is smooth (and far from zero) around v+, but some inner 2x2 solves inside
+        # this very brentq run failed, and nearby evaluations whose inner solve does NOT
+        # converge give values of the opposite sign: brentq bracketed a sign change that
+        # exists only between a converged and an unconverged evaluation
+        if n_failed > 0:
+            for d in (1e-3, 3e-3, 1e-2):
+                for x in (vp * (1 - d), vp * (1 + d)):
+                    v = F(x)
+                    if v * f0 < 0 and abs(v) >= 0.5 * abs(miss) and not conv[x]:
+                        return True
     except Exception:
         pass
     return False
@@ -704,8 +718,23 @@ def check_point(ctx, case, th, h, vw, stats=None):
         else:
             exists, where = exact_matching_exists(h, vw)
         if exists:
+            kind = "no-result-although-exists"
+            if branch == "detonation":
+                # mechanism of deton-minimiser-misses-dip: matchDeton's minimize_scalar
+                # (Bounded, default xatol = 1e-5 ABSOLUTE) stops at a positive value although
+                # the residual dips below zero between two close roots (vw just above vJ,
+                # temperatures small in the user's units); a tight minimiser finds the dip
+                fun_, res_ = spy.last("minimize_scalar", "tmFromvpsq")
+                try:
+                    from scipy.optimize import minimize_scalar as _ms
+                    if fun_ is not None and float(res_.fun) > 0 and float(_ms(
+                            fun_, bounds=[h.Tnucl, h.TMaxHydro], method="Bounded",
+                            options={"xatol": 1e-14}).fun) < 0:
+                        kind = "deton-minimiser-misses-dip"
+                except Exception:
+                    pass
             bads.append(("no matching returned (%r) although an exact one exists (sign "
-                         "change in %r)" % (raised, where), "no-result-although-exists"))
+                         "change in %r)" % (raised, where), kind))
         return report(state)
     if not spy.matchings:
         if any(float(x) != 0 for x in hb):
@@ -886,7 +915,9 @@ def check_point(ctx, case, th, h, vw, stats=None):
                 except Exception:
                     pass
             if not shock_ok and not spy.fallback:
-                jump = root_on_jump(h, vw, vp, Tsh - h.Tnucl)
+                nfail = sum(1 for nm, f_, r_ in spy.calls[:-1]
+                            if nm == "root" and not r_.success)
+                jump = root_on_jump(h, vw, vp, Tsh - h.Tnucl, nfail)
                 bads.append(("the shock launched by (vw=%.9g, vp=%.9g, Tp=%.9g) reaches "
                              "%.9g, not Tn=%.9g (rel %.3g > %.3g)%s" % (
                                  vw, vp, Tp, Tsh, h.Tnucl, dsh, tolsh,
